@@ -260,6 +260,7 @@ static void text_case(uint64_t idx, bool verbose) {
         name = vf::fmt("go(%zu)", off);
         log += name + "; ";
         g_op = "go";
+        vf::poison_errno();
         r.go(off);
         want = off;
         misc("text:go");
@@ -272,6 +273,7 @@ static void text_case(uint64_t idx, bool verbose) {
         name = vf::fmt("truncate(%zu)", n);
         log += name + "; ";
         g_op = "truncate";
+        vf::poison_errno();
         r.truncate(n);
         size = n;
         misc("text:truncate");
